@@ -873,23 +873,28 @@ def stream_repr(chk, i, rng):
         chk.dist[f"repr:{how}"] += 1
         if not all(same_snapshot(v, sn) for v, sn in zip((Xv, yv, mlv, clv), snaps)):
             chk.fail(key + ":argument-mutated", f"{entry} changed a caller's argument presented as {how}", rp, layer="L3")
-        # a float32 precomputed affinity is used as float32 by the GEMINIs (not promoted like X): float32 resolution there
-        rt = 1e-5 if (how == "float32" and (y is not None or entry == "path")) else 1e-12
-        if how == "float32" and y is None and entry == "path":
-            note = "OBSERVATION path(X float32) computes the affinity from the float32 X (fit promotes X to float64 first): path results agree with the float64 call to ~1e-8 only"
+        if how == "float32":
+            # Single-precision inputs are processed in single precision where the library does not promote them (a float32
+            # precomputed affinity; X inside path()): ~1e-8 relative differences that ReLU masks and Adam steps amplify.
+            # Policy (as C17/C04): no exception, finite values, same shapes, arguments unchanged; for the linear families the
+            # direction of the FIRST optimiser step within 1e-4 relative; never the labels.
+            note = "OBSERVATION float32 affinities (and float32 X inside path()) are processed in single precision: traces agree with the float64 call only to float32 resolution"
             if note not in chk.notes:
                 chk.notes.append(note)
-        if how == "float32" and y is not None:
-            note = "OBSERVATION a float32 precomputed affinity is kept in float32 by compute_affinity (X is promoted to float64): scores/gradients agree with the float64 call to ~1e-8 only"
-            if note not in chk.notes:
-                chk.notes.append(note)
-        ok = len(got[0]) == len(ref[0]) and (np.array_equal(got[1], ref[1]) or rt > 1e-12) and len(got[2]) == len(ref[2]) \
-            and all(close(a, b, max(rt, 1e-12)) for a, b in zip(got[2], ref[2]))
-        if ok:
-            for (p1, g1), (p0, g0) in zip(got[0], ref[0]):
-                if not all(close(a, b, rt) for a, b in zip(p1 + g1, p0 + g0)):
-                    ok = False
-                    break
+            ok = len(got[0]) > 0 and all(np.isfinite(a).all() for p1, g1 in got[0] for a in p1 + g1) \
+                and all(a.shape == b.shape for a, b in zip(got[0][0][0] + got[0][0][1], ref[0][0][0] + ref[0][0][1])) \
+                and got[1].shape == ref[1].shape and (entry == "path" or len(got[0]) == len(ref[0]))
+            if ok and fam in ("LinearModel", "RIM", "KernelRIM", "SparseLinearModel"):
+                ok = all(close(a, b, 1e-4) for a, b in zip(got[0][0][1], ref[0][0][1]))
+            chk.dist["repr:float32:first-step-compared" if fam in ("LinearModel", "RIM", "KernelRIM", "SparseLinearModel") else "repr:float32:shape-finite-only"] += 1
+        else:
+            ok = len(got[0]) == len(ref[0]) and np.array_equal(got[1], ref[1]) and len(got[2]) == len(ref[2]) \
+                and all(close(a, b, 1e-12) for a, b in zip(got[2], ref[2]))
+            if ok:
+                for (p1, g1), (p0, g0) in zip(got[0], ref[0]):
+                    if not all(close(a, b, 1e-12) for a, b in zip(p1 + g1, p0 + g0)):
+                        ok = False
+                        break
         if not ok:
             chk.fail(key + ":differs", f"{entry} on the same values presented as {how} does not reproduce the optimiser trace / labels of the float64 C-contiguous call", rp, layer="L3")
     chk.dist["repr:family:" + fam] += 1
@@ -926,7 +931,7 @@ def main():
                     "stream pre: precomputed affinities (indefinite symmetric kernels with negative entries, distance matrices; read-only) through fit, fit_predict and path, plain and decorated, "
                     "batch_size None / < n / = n / > n (full L2 + L3 + affinity alignment + arguments unchanged). "
                     "stream repr: metamorphic - X, the precomputed affinity and the constraint pairs as int64/int32/bool/float32/Fortran/strided and reversed views/read-only/lists/tuples must reproduce the "
-                    "optimiser trace, labels and path results of the float64 C-contiguous call, raise nothing new and leave the caller's objects bit-identical. stream edge: single cluster / duplicated rows + constant feature / saturated predictions / repeated, reversed and never-in-batch "
+                    "optimiser trace, labels and path results of the float64 C-contiguous call at 1e-12 (float32: no exception, finite, same shapes, first-step direction of the linear families at 1e-4), raise nothing new and leave the caller's objects bit-identical. stream edge: single cluster / duplicated rows + constant feature / saturated predictions / repeated, reversed and never-in-batch "
                     "constraint pairs, feature masks, a callable kernel. stream path: path() of the two sparse families (its own training loop). stream fit: real fits (3 epochs) of the 8 gradient-trained families x GEMINI names x {sgd, adam} x batch size {1, 2, n//2, n, None} x "
                     "plain / mlcl-decorated, n<=20, d<=4, h<=5, with update_params intercepted; every recorded step (capped per fit) is recomputed by the "
                     "extracted model (rtol 1e-9) and a few steps per fit are checked against central finite differences of the objective "
